@@ -38,6 +38,8 @@ KINDS = [
     ('keep', 'GET', '/keep?id={i}', b''),
     ('logout', 'GET', '/logout?id={i}', b''),
     ('boom', 'GET', '/boom?id={i}', b''),
+    ('helpA', 'GET', '/helpa?id={i}', b''),
+    ('helpB', 'GET', '/helpb?id={i}', b''),
     ('redir', 'GET', '/dir?id={i}', b''),
     ('dir', 'GET', '/dir/?id={i}', b''),
     ('br', 'GET', '/br/{nm}{i}/?id={i}', b''),
@@ -173,6 +175,13 @@ def predict(cfg, r):
         return (404, None, None, None)
     if k in ('boom', 'nonresp'):
         return (500, None, None, None)
+    if k in ('helpA', 'helpB'):
+        # two endpoints failing inside one helper: the error is the same, the way there is not -- a client that asks
+        # for JSON is shown the call stack, and that is the stack of ITS request
+        if r.get('accept') == 'application/json':
+            own, other = ('ep_help_a', 'ep_help_b') if k == 'helpA' else ('ep_help_b', 'ep_help_a')
+            return (500, None, None, None, {'body_has': own, 'body_lacks': other})
+        return (500, None, None, None)
     if k == 'ret409':
         return (409, None, None, None)
     if k == 'raise403':
@@ -271,7 +280,7 @@ class C12(Check):
                  'OS threads (parked/released one at a time)'],
         'stub': ['WSGI server and HTTP clients (SimGateway)', 'thread scheduling choice (BatonScheduler)'],
     }
-    required_probes = ('function-focused-preemption', 'predicted-response-compared', 'marathon', 'cold-application', 'switch-in-clastic', 'switch-in-sinter', 'gran-ins', 'gran-line', 'threads-4')
+    required_probes = ('long-lived-workers', 'function-focused-preemption', 'predicted-response-compared', 'marathon', 'cold-application', 'switch-in-clastic', 'switch-in-sinter', 'gran-ins', 'gran-line', 'threads-4')
 
     # ---- generation ------------------------------------------------------
     def gen_config(self, rng):
@@ -351,7 +360,16 @@ class C12(Check):
             # (the number of pairs grows with the square of the catalogue: mixed pairs are sampled at this tier, too)
             plan_pairs = {'line': [(a, a) for a in kinds] + rng.sample(mixed, 150),
                           'ins': [(a, a) for a in kinds] + rng.sample(mixed, 25)}
+        # kinds that share code further in (one helper, one path, one pattern): both clients ask for JSON
+        siblings = [('helpA', 'helpB'), ('helpB', 'helpA'), ('fallA', 'fallB'), ('doc', 'docv2'), ('item_get', 'item_post'), ('boom', 'helpA')]
         grans = sorted(plan_pairs)
+        for a, b in siblings:
+            ra = dict(make_request(a, 11, 'alice', 'application/json'), name='T0')
+            rb = dict(make_request(b, 22, 'bob', 'application/json'), name='T1')
+            n = solo_steps(cfg, ra, 'line')
+            for k in range(1, n + 1, 4 if tier == 'quick' else 1):
+                yield {'world': 'threads', 'seed': base_seed, 'config': cfg, 'requests': [ra, rb], 'granularity': 'line',
+                       'order': ['T0', 'T1'], 'preempts': [[k, 'T1']], 'mode': 'depth1-siblings'}
         for gran in grans:
             for a, b in plan_pairs[gran]:
                 ra = make_request(a, 11, 'alice', 'text/html' if a == b else None)
@@ -421,7 +439,30 @@ class C12(Check):
             yield {'world': 'threads', 'seed': base_seed, 'config': cfg, 'marathon': seqs, 'granularity': 'line',
                    'order': names, 'preempts': pre, 'mode': 'marathon', 'requests': [], 'hot_funcs': hot, 'hot_bits': bits}
 
+    def idrun_plans(self, tier, base_seed):
+        """Long-lived server workers: a few threads serve thousands of requests each, taking turns in long stretches;
+        every identifier handed out in the whole phase is collected (whatever is handed out in batches, per thread or
+        per second shows only after a batch has been used up)."""
+        rng = Streams(base_seed)['idrun']
+        cfg = {'tok': False, 'eptok': False, 'rendermw': False, 'echo_errors': False, 'slash': 'redirect'}
+        per_request = solo_steps(cfg, dict(make_request('doc', 11, 'calib'), name='T0'), 'line')
+        for k in range(1 if tier == 'quick' else 6):
+            nthreads = 2 if k == 0 else rng.choice([2, 3])
+            names = ['T%d' % t for t in range(nthreads)]
+            counts = dict((t, (4400 if k == 0 else rng.choice([1100, 2300, 4400, 8500]))) for t in names)
+            total = sum(counts.values()) * (per_request + 6)
+            # every thread gets going early (one request each), afterwards they take turns in long stretches
+            pre = [[(per_request + 6) * (i + 1), names[(i + 1) % nthreads]] for i in range(nthreads)]
+            step = pre[-1][0]
+            while step < total:
+                step += rng.randint(50, 900) * (per_request + 6)
+                pre.append([step, rng.choice(names)])
+            yield {'world': 'threads', 'seed': base_seed, 'config': cfg, 'idrun': counts, 'granularity': 'line',
+                   'order': names, 'preempts': pre, 'mode': 'idrun', 'requests': []}
+
     def extra_plans(self, tier, base_seed):
+        for p in self.idrun_plans(tier, base_seed):
+            yield p
         for j, p in enumerate(self.depth1_plans(tier, base_seed)):
             p['clock_start'] = EPOCH + 100.0 * ((1 << 20) + j)
             yield p
@@ -474,10 +515,54 @@ class C12(Check):
                     return res
         return res
 
+    def execute_idrun(self, plan):
+        res = RunResult()
+        app = app_for(plan['config'])
+        got = {}
+
+        def runner_for(name, n):
+            def run():
+                out = []
+                for i in range(n):
+                    env = make_environ('GET', '/doc?id=%d' % (10 + i % 89))
+                    env['sim.ids'], env['sim.ds'], env['sim.req_objs'], env['sim.guids'] = [], [], [], []
+                    ex = call_app(app, env, validate=False)
+                    out.append((ex.code, tuple(sorted(set(env['sim.ids']), key=repr)), tuple(sorted(set(env['sim.guids']), key=repr))))
+                got[name] = out
+            return run
+        tasks = dict((name, runner_for(name, n)) for name, n in plan['idrun'].items())
+        sched = BatonScheduler(plan['order'], plan['preempts'], plan['granularity'], WATCH, max_steps=20000000, join_timeout=300.0)
+        sched.run(tasks)
+        res.steps = sched.steps
+        res.nontrivial = bool(sched.switches)
+        res.fire('preempt', len(sched.switches))
+        res.probe('long-lived-workers')
+        res.signature = 'idrun|%s|%d' % (canon(plan['idrun']), len(sched.switches))
+        res.ev('idrun', canon(plan['idrun']), 'steps', sched.steps, 'switches', len(sched.switches))
+        seen_i, seen_g = {}, {}
+        for name in sorted(plan['idrun']):
+            if name in sched.errors:
+                res.violate(('C12/deadlock' if type(sched.errors[name]).__name__ == 'SimDeadlock' else
+                             'C12/thread-raised:%s' % type(sched.errors[name]).__name__), '%s: %r' % (name, sched.errors[name]))
+                continue
+            for j, (code, ids, guids) in enumerate(got.get(name, [])):
+                if code != 200 or len(ids) != 1 or len(guids) != 1 or ids[0] is None or guids[0] is None:
+                    res.violate('C12/idrun/request-without-one-id', '%s request #%d: status %s ids %r guids %r' % (name, j, code, ids, guids))
+                    return res
+                for seen, v, what in ((seen_i, ids[0], 'id'), (seen_g, guids[0], 'guid')):
+                    if v in seen:
+                        res.violate('C12/request-%s-duplicate' % what, 'request %s %r was assigned to request #%d of %s and to request #%d of %s (long-lived workers: %s)'
+                                    % (what, v, seen[v][1], seen[v][0], j, name, canon(plan['idrun'])))
+                        return res
+                    seen[v] = (name, j)
+        return res
+
     # ---- execution ---------------------------------------------------------
     def execute(self, plan):
         if plan.get('marathon'):
             return self.execute_marathon(plan)
+        if plan.get('idrun'):
+            return self.execute_idrun(plan)
         # every clock read in the process is the simulated clock while the run lasts
         import time as _time
         real_time = _time.time
@@ -568,7 +653,9 @@ class C12(Check):
                 if (s['code'] != p[0] or (p[1] is not None and s['body'] != p[1]) or (p[2] is not None and s['headers'].get('allow') != p[2])
                         or (p[3] is not None and s['headers'].get('location') != p[3])
                         or (stamp is not None and stamp != 'tok-%d' % r['id'])
-                        or (len(p) > 4 and any(s['headers'].get(hk) != hv for hk, hv in p[4].items()))):
+                        or (len(p) > 4 and any(s['headers'].get(hk) != hv for hk, hv in p[4].items() if not hk.startswith('body_')))
+                        or (len(p) > 4 and 'body_has' in p[4] and p[4]['body_has'] not in s['body'])
+                        or (len(p) > 4 and 'body_lacks' in p[4] and p[4]['body_lacks'] in s['body'])):
                     res.violate('C12/%s/differs-from-source-prediction:%s' % (r['kind'], what),
                                 '%s (%s %s) served %s: status %s body %r Allow %r Location %r; the application source says %r\n history: %s'
                                 % (name, r['method'], r['target'], what, s['code'], s['body'][:80], s['headers'].get('allow'), s['headers'].get('location'), p,
